@@ -47,7 +47,7 @@ PROPS = {
         "kani": ["U2b"],
         "level": "proof",
         "witness": [(r"verify_token|create_ciphers|apply_encryption", "enc_response"), (r"listen", "session")],
-        "sweep": ["session", "enc_response"],
+        "sweep": ["session", "enc_response", "cookie_matrix"],
         "explanation": "Connection::listen is extracted whole and verified against the reference automaton of units/U3/spec.rs: Login Success is accepted "
                        "only when the RSA-decrypted verify token equals the token of this connection's Encryption Request and the identity is the one "
                        "returned by the authentication oracle (asked with the decrypted shared secret and the server public key) or the one inside an "
@@ -86,6 +86,7 @@ PROPS = {
     },
     "C06": {
         "units": ["U3", "U4"],
+        "kani": ["U2b"],
         "level": "proof",
         "witness": [(r"ping|status", "order"), (r".", "session")],
         "sweep": ["session", "order"],
@@ -170,8 +171,8 @@ PROPS = {
     "C11": {
         "units": ["U6", "U7"],
         "level": "proof",
-        "witness": [(r".", "mchash")],
-        "sweep": ["mchash"],
+        "witness": [(r"authenticate|request|with_server_id", "mojang"), (r".", "mchash")],
+        "sweep": ["mchash", "mojang"],
         "explanation": "minecraft_hash is verified verbatim against mc_hash = signed_hex(signed_be(sha1(utf8(server id) ++ secret ++ public key))), written from the "
                        "protocol description: the three inputs are absorbed once each in this order, the digest is read as a signed big-endian number and printed "
                        "in radix 16. SHA-1 is uninterpreted; the sha1 and num-bigint calls carry assumed contracts (update appends, from_signed_bytes_be is "
